@@ -2281,6 +2281,8 @@ def check_enc(cx):
     quick = cx.tier == "quick"
     thms = ENC_THEOREMS.get(cx.prop, [])
     info = stage_proofs(cx, "AL.Properties." + cx.prop, thms)
+    if info and cx.prop in KERNEL_THEOREMS:
+        kernel_stage(cx)
     impl = build_impl(cx)
     if not (info and impl):
         return finish(cx, "")
@@ -2626,9 +2628,40 @@ def check_enc(cx):
                   exhaustive=cx.prop in ("C01", "C04", "C05"))
 
 
+# the theorems that are decided by kernel evaluation of whole families (hundreds of generated modules): built by `alv.py setup` and by the
+# thorough tier; the quick tier audits them when they are up to date with the regenerated tables and otherwise reports that they are not
+# established for this tree (rebuilding takes about nine minutes) — the search for a failing input runs either way
+KERNEL_THEOREMS = {
+    "C01": ("AL.Properties.C01Kernel", ["AL.Properties.C01.every_register_form", "AL.Properties.Kernel.c01_every_instance",
+                                        "AL.Properties.Kernel.checkK_sound", "AL.Properties.Kernel.cell_ok"]),
+    "C04": ("AL.Properties.C04Kernel", ["AL.Properties.C04.two_operand_forms", "AL.Properties.Kernel.c04_two_operand_forms",
+                                        "AL.Properties.Kernel.checkT_sound", "AL.Properties.Kernel.cell4_ok"]),
+}
+
+
+def kernel_stage(cx):
+    mod, thms = KERNEL_THEOREMS[cx.prop]
+    fresh = alv.lake_uptodate(mod)
+    if not fresh and cx.tier == "thorough":
+        ok, out, dt = alv.lake_build([mod], timeout=7200)
+        cx.oblige("lake build %s (kernel modules re-checked against the regenerated tables, %.0f s)" % (mod, dt), ok, out[-3000:] if not ok else "")
+        fresh = ok
+    if fresh:
+        axioms, bad, raw = alv.audit(mod, thms)
+        cx.axioms.update(axioms)
+        for t in thms:
+            tb = [b for b in bad if b.startswith(t + ":")]
+            cx.oblige("kernel-checked theorem %s (axioms: %s)" % (t, ", ".join(axioms.get(t, ["?"])) or "none"), not tb, "; ".join(tb))
+    else:
+        for t in thms:
+            cx.oblige("kernel-checked theorem %s" % t, False,
+                      "the kernel modules were checked against other tables than the ones regenerated from /repo/src now; the quick tier does "
+                      "not rebuild them (about nine minutes: `python3 alv.py setup` or the thorough tier), so the theorem is not established "
+                      "for this tree")
+
+
 ENC_THEOREMS = {
-    "C01": ["AL.Properties.C01.every_register_form", "AL.Properties.Kernel.c01_every_instance", "AL.Properties.Kernel.checkK_sound", "AL.Properties.Kernel.cell_ok",
-            "AL.Properties.Sweep.c01_sweep", "AL.Properties.C01.nop_table_decodes", "AL.Properties.C01.no_operand_lines", "AL.Properties.C01.letter_case_irrelevant", "AL.Properties.C01.regpair_fields"],
+    "C01": ["AL.Properties.Sweep.c01_sweep", "AL.Properties.C01.nop_table_decodes", "AL.Properties.C01.no_operand_lines", "AL.Properties.C01.letter_case_irrelevant", "AL.Properties.C01.regpair_fields"],
     "C02": ["AL.Properties.Sweep.c02_sweep", "AL.Properties.Sweep.c02_sweep_mixed", "AL.Properties.Sweep.c02_sweep_extreme", "AL.Properties.C02.disp_field_reads_back", "AL.Properties.C02.decoder_reads_every_operand", "AL.Properties.C02.mov_load_every_disp", "AL.Properties.C02.mov_load_text", "AL.Lemmas.MemText.mem_line", "AL.Lemmas.MemLoad.mem_bytes", "AL.Lemmas.MemLoad.memBytes_canonical", "AL.Spec.X86.leVal_assembleConst", "AL.Spec.X86.toSigned_roundtrip",
             "AL.Properties.C11.swap_same_address", "AL.Properties.C11.nobase_scale2_same_address", "AL.Properties.C11.nobase_scale1_same_address"],
     "C03": ["AL.Properties.Sweep.c03_sweep", "AL.Properties.C03.written_number_value", "AL.Properties.C03.written_number_value_padded", "AL.Properties.C03.imm_field_reads_back", "AL.Properties.C03.imm_field_dword", "AL.Properties.C03.imm_field_qword",
@@ -2638,8 +2671,7 @@ ENC_THEOREMS = {
             "AL.Properties.C03.aluOps_digits", "AL.Lemmas.Alu.alu_bytes", "AL.Lemmas.Alu.aluKeys_classified", "AL.Lemmas.AluText.alu_line", "AL.Spec.AluImm.aluRead_aluBytes",
             "AL.Lemmas.assembleImm_dword", "AL.Lemmas.assembleImm_qword", "AL.Lemmas.assembleImm_reduced", "AL.Lemmas.assembleConst_pad",
             "AL.Lemmas.strtoul_dec", "AL.Lemmas.strtoul_hex", "AL.Lemmas.strtoul_neg_dec", "AL.Lemmas.strtoul_neg_hex"],
-    "C04": ["AL.Properties.C04.two_operand_forms", "AL.Properties.Kernel.c04_two_operand_forms", "AL.Properties.Kernel.checkT_sound", "AL.Properties.Kernel.cell4_ok",
-            "AL.Properties.Sweep.c04_sweep", "AL.Properties.C04.vex2_is_vex3", "AL.Properties.C04.vex_prefix_fields", "AL.Properties.C04.vecpair_fields", "AL.Properties.C01.regpair_fields"],
+    "C04": ["AL.Properties.Sweep.c04_sweep", "AL.Properties.C04.vex2_is_vex3", "AL.Properties.C04.vex_prefix_fields", "AL.Properties.C04.vecpair_fields", "AL.Properties.C01.regpair_fields"],
     "C05": ["AL.Properties.Sweep.c05_sweep", "AL.Properties.C05.rel_field_reads_back", "AL.Properties.C05.written_displacement", "AL.Properties.C03.written_number_value_padded",
             "AL.Properties.C05.rel_branch_every_d", "AL.Properties.C05.rel_branch_text_dec", "AL.Properties.C05.rel_branch_text_neg_dec",
             "AL.Properties.C05.rel_branch_text_hex", "AL.Properties.C05.rel_branch_text_neg_hex", "AL.Lemmas.BranchText.branch_line", "AL.Lemmas.Branch.relKeys_classified", "AL.Lemmas.Branch.j_bytes", "AL.Lemmas.Branch.c_bytes", "AL.Lemmas.Branch.r_bytes"],
@@ -3162,7 +3194,7 @@ def check_C19(cx):
         files.append(("prog%d" % n, g.program(r.choice([3, 10, 40]))))
     # physical lines far longer than any block a reader could use (4096, 8192, 65536 bytes): a comment, a run of blanks inside an
     # instruction, a comment-only line in front of code — only a line's SIGNIFICANT characters are limited
-    for n, L in enumerate((4090, 4096, 4100, 8192, 8200) if quick else (4000, 4090, 4095, 4096, 4097, 4100, 8191, 8192, 8193, 8200, 12288, 65536, 70000)):
+    for n, L in enumerate((4090, 4096, 4100, 8192, 8200) if quick else (4000, 4090, 4095, 4096, 4097, 4100, 8191, 8192, 8193, 8200, 12288, 16500)):
         files.append(("longc%d" % n, b"nop ;" + b"a" * L + b"\nret\n"))
         files.append(("longs%d" % n, b"mov rax," + b" " * L + b"rbx\nret"))
         files.append(("longo%d" % n, b";" + b"x" * (L - 1) + b"ret\nnop\n"))
